@@ -187,85 +187,106 @@ def descs(chk, repo):
         made.append(o)
         return o
 
-    def run_(ci_, desc_fields, inst):
-        me = Obj(ci_, dict(desc_fields))
+    made_desc = {}
+
+    def run_(ci_, fields, inst):
+        # one descriptor object per declaration, as in a class body: what
+        # it keeps from one access is there at the next, for whichever
+        # terminal or channel that is
+        key = (ci_.qualname,) + tuple(sorted(fields.items(), key=str))
         ev_ = Evaluator(repo, ci_.module, ci_)
         ev_.ctor_hooks[C + "PacketVar"] = ctor
+        me = made_desc.get(key)
+        if me is None:
+            try:
+                me = ev_.construct(ci_, [], dict(fields))
+            except (Unknown, Raised):
+                me = Obj(ci_, dict(fields))
+            for k_, v_ in fields.items():
+                me.fields.setdefault(k_, v_)
+            made_desc[key] = me
         try:
             return me, ev_.call_function(ci_.methods["__get__"],
                                          [me, inst, Opaque("owner")], cls=ci_)
         except (Unknown, Raised) as e:
             raise AnalysisError(f"R19.3: {ci_.qualname}.__get__ cannot be "
                                 f"evaluated: {e}")
+
+    def var_of(r, linked):
+        """the PacketVar behind what __get__ returned"""
+        if linked is not None and isinstance(r, tuple) and len(r) == 3 \
+                and r[0] == "read by" and r[1] is linked:
+            return r[2]
+        return r if linked is None and isinstance(r, Obj) else None
     bad = {pd.qualname: [], kd.qualname: []}
+    pdos = {}
+    for b_ in (0, 0x10, 0x20):
+        pdos[0x6000 + b_, 1] = (IN, 4 + b_, "H")
+        pdos[0x6010 + b_, 1] = (IN, 9 + b_, "H")
+        pdos[0x7000 + b_, 2] = (OUT, 2 + b_, 3)
     term = Obj(et, {"position_offset": {OUT: 0, IN: 0, None: 0},
-                    "pdos": {(0x6000, 1): (IN, 4, "H"),
-                             (0x6010, 1): (IN, 9, "H"),
-                             (0x7000, 2): (OUT, 2, 3)}})
+                    "pdos": pdos})
+    term2 = Obj(et, {"position_offset": {OUT: 0, IN: 0, None: 0},
+                     "pdos": {k_: (v_[0], v_[1] + 100, v_[2])
+                              for k_, v_ in pdos.items()}})
     dev = Obj(None, {"_": "device"})
-    for linked in (None, dev):
-        for inst, off in (
-                (term, {OUT: 0, IN: 0, None: 0}),
-                (Obj(st, {"terminal": term, "device": linked,
-                          "position_offset": {OUT: 24, IN: 22, None: 0x10}}),
-                 {OUT: 24, IN: 22, None: 0x10})):
-            is_struct = inst is not term
-            # PacketDesc(sm, position, size)
+    dev2 = Obj(None, {"_": "device 2"})
+    offA = {OUT: 24, IN: 22, None: 0x10}
+    offB = {OUT: 48, IN: 44, None: 0x20}
+    zero = {OUT: 0, IN: 0, None: 0}
+    chanA = Obj(st, {"terminal": term, "device": None,
+                     "position_offset": offA})
+    chanB = Obj(st, {"terminal": term, "device": None,
+                     "position_offset": offB})
+    chanAd = Obj(st, {"terminal": term, "device": dev,
+                      "position_offset": offA})
+    chanBd = Obj(st, {"terminal": term, "device": dev2,
+                      "position_offset": offB})
+    chanA2 = Obj(st, {"terminal": term2, "device": dev,
+                      "position_offset": offA})
+    # every declaration is read through every instance, twice, in this
+    # order: the second channel after the first, another terminal last
+    insts = [(term, zero, term, None, "terminal"),
+             (chanA, offA, term, None, "Struct channel 1"),
+             (chanB, offB, term, None, "Struct channel 2"),
+             (chanAd, offA, term, dev, "linked Struct channel 1"),
+             (chanBd, offB, term, dev2, "linked Struct channel 2"),
+             (chanA, offA, term, None, "Struct channel 1 again"),
+             (term2, zero, term2, None, "another terminal"),
+             (chanA2, offA, term2, dev, "linked Struct channel 1 of "
+                                        "another terminal")]
+    for rnd in (1, 2):
+        for inst, off, tm, linked, what in insts:
             for smv, pos, size in ((IN, 1, "23p"), (OUT, 0, 2)):
-                del made[:]
                 me, r = run_(kd, {"sm": smv, "position": pos, "size": size},
                              inst)
-                want = (term, smv, pos + off[smv], size)
-                got = made[0].fields["args"] if len(made) == 1 else None
-                if got is None or got[0] is not want[0] or got[1:] != \
-                        want[1:]:
+                v = var_of(r, linked)
+                want = (tm, smv, pos + off[smv], size)
+                got = v.fields.get("args") if isinstance(v, Obj) else None
+                if got is None or got[0] is not want[0] or tuple(
+                        got[1:]) != want[1:]:
                     bad[kd.qualname].append(
-                        f"PacketDesc({smv.name}, {pos}, {size!r}) in a "
-                        f"{'Struct' if is_struct else 'terminal'} -> "
-                        f"{got[1:] if got else made}")
-                    continue
-                if is_struct and linked is not None:
-                    okr = r == ("read by", linked, made[0])
-                else:
-                    okr = r is made[0]
-                if not okr:
-                    bad[kd.qualname].append(
-                        f"PacketDesc in a {'linked ' if linked else ''}"
-                        f"{'Struct' if is_struct else 'terminal'} returns "
-                        f"{r!r}")
-            # ProcessDesc(index, subindex, size=None)
+                        f"PacketDesc({smv.name}, {pos}, {size!r}) read "
+                        f"through {what} (access {rnd}) -> "
+                        f"{tuple(got[1:]) if got else r!r}, expected "
+                        f"{want[1:]}")
             base = off[None]
-            for index, sub, size, want_entry in (
-                    (0x6000 - base, 1, None, (IN, 4 if not base else None,
-                                              "H")),
-                    (0x6010 - base, 1, "h", (IN, 9, "h")),
-                    (0x6010 - base, 1, 0, (IN, 9, 0)),
-                    (0x7000 - base, 2, None, (OUT, 2, 3))):
-                del made[:]
-                key = (index + base, sub)
-                if key not in term.fields["pdos"]:
-                    continue
+            for index, sub, size in ((0x6000, 1, None), (0x6010, 1, "h"),
+                                     (0x6010, 1, 0), (0x7000, 2, None)):
                 me, r = run_(pd, {"index": index, "subindex": sub,
                                   "size": size}, inst)
-                e_sm, e_off, e_size = term.fields["pdos"][key]
-                want = (term, e_sm, e_off, size if size is not None
+                e_sm, e_off, e_size = tm.fields["pdos"][index + base, sub]
+                want = (tm, e_sm, e_off, size if size is not None
                         else e_size)
-                got = made[0].fields["args"] if len(made) == 1 else None
-                if got is None or got[0] is not want[0] or got[1:] != \
-                        want[1:]:
+                v = var_of(r, linked)
+                got = v.fields.get("args") if isinstance(v, Obj) else None
+                if got is None or got[0] is not want[0] or tuple(
+                        got[1:]) != want[1:]:
                     bad[pd.qualname].append(
-                        f"ProcessDesc({index:#x}, {sub}, {size!r}) at CoE "
-                        f"offset {base:#x} -> {got[1:] if got else made}")
-                    continue
-                if is_struct and linked is not None:
-                    okr = r == ("read by", linked, made[0])
-                else:
-                    okr = r is made[0]
-                if not okr:
-                    bad[pd.qualname].append(
-                        f"ProcessDesc in a {'linked ' if linked else ''}"
-                        f"{'Struct' if is_struct else 'terminal'} returns "
-                        f"{r!r}")
+                        f"ProcessDesc({index:#x}, {sub}, {size!r}) read "
+                        f"through {what} (access {rnd}) -> "
+                        f"{tuple(got[1:]) if got else r!r}, expected "
+                        f"{want[1:]}")
     chk.ob("R19.3", pd.qualname + ".__get__", "(sm, offset, size) come from "
            "the PDO table at index + CoE offset, subindex; a declared size "
            "overrides only the size; inside a linked Struct the value is "
@@ -323,42 +344,131 @@ def descs(chk, repo):
 
 
 def closures(chk, repo):
+    """R19.4: the slow-path accessors of PacketVar, by abstract execution of
+    get() and set() on an abstract device and sync group whose frame is a
+    real bytearray: first access, access through the accessor cached on the
+    PacketVar, access after the group was restarted (start() installs a
+    new frame buffer), access with another device"""
+    import struct as _struct
     pv = repo.cls(C + "PacketVar")
-    n = 0
-    for meth in ("get", "set"):
-        f = pv.methods[meth]
-        inner = [x for x in ast.walk(f) if isinstance(x, ast.FunctionDef)
-                 and x is not f]
-        for g in inner:
-            n += 1
-            sym = f"{pv.qualname}.{meth}.<{g.name}>"
-            cur = [a for a in ast.walk(g) if isinstance(a, ast.Attribute)
-                   and a.attr == "current_data"]
-            chk.ob("R19.4", sym, f"closure #{n} reads the sync group's "
-                   f"current frame on every call", bool(cur), g,
-                   "a frame captured when the closure was built goes stale "
-                   "when the group is restarted (start() makes a new "
-                   "current_data): later writes land in the dead buffer"
-                   if not cur else "current_data is looked up inside the "
-                   "closure")
-            params = {a.arg for a in g.args.args}
-            local = {t.id for s in ast.walk(g) if isinstance(s, ast.Assign)
-                     for t in s.targets if isinstance(t, ast.Name)}
-            free = {x.id for x in ast.walk(g) if isinstance(x, ast.Name)
-                    and isinstance(x.ctx, ast.Load)} - params - local - {
-                        "bool", "device"}
-            ok = free <= {"start", "mask", "mystruct", "s"}
-            chk.ob("R19.4", sym, f"closure #{n} captures only the position "
-                   f"and the format", ok, g, f"free variables: "
-                   f"{sorted(free)}")
-            ok = bool(find("assert instance is device", g, mode="stmt"))
-            chk.ob("R19.4", sym, f"closure #{n} asserts its device", ok, g,
-                   "the cached accessor is specific to one device")
-        ok = bool(find(f"self.{meth} = {meth}", f, mode="stmt"))
-        chk.ob("R19.4", pv.qualname + "." + meth, "the specialised accessor "
-               "is cached on the PacketVar instance", ok, f,
-               f"self.{meth} = {meth}")
-    chk.floor("R19.4", "specialised accessor closures", n, 4)
+    chk.analysed(pv.qualname + ".get", pv.qualname + ".set")
+    smc = repo.cls("ebpfcat.ethercat.SyncManager")
+    OUT = Evaluator(repo, smc.module, smc).enum_members(smc)["OUT"]
+    term = Obj(None, {"_": "terminal"})
+    bad = {"value": [], "stale": [], "device": []}
+    rows = 0
+
+    def group(base, size=64, fill=0):
+        return Obj(None, {"current_data": bytearray([fill]) * size,
+                          "pdo_assign": {term: {OUT: base}}})
+
+    def call(me, name, *args):
+        ev_ = Evaluator(repo, pv.module, pv)
+        f_ = ev_.getattr(me, name)
+        return ev_.call(f_, list(args))
+    for size, values in (("H", (0x1234, 0xfedc)), ("i", (-5, 70000)),
+                         ("B", (7, 200)), ("Q", (1 << 40, 3)),
+                         (0, (True, False)), (5, (True, False)),
+                         ("4s", (b"abcd", b"wx\x00\x00")),
+                         ("6p", (b"ab\x00", b"xyz"))):
+        for base, pos in ((20, 3), (8, 0)):
+            rows += 1
+            tag = f"size {size!r} at {base}+{pos}"
+            try:
+                me = Obj(pv, {"terminal": term, "sm": OUT, "position": pos,
+                              "size": size})
+                sg = group(base)
+                dev = Obj(None, {"sync_group": sg})
+                at = base + pos
+
+                def expect(buf, v, before):
+                    want = bytearray(before)
+                    if isinstance(size, int):
+                        if v:
+                            want[at] |= 1 << size
+                        else:
+                            want[at] &= ~(1 << size) & 0xff
+                    else:
+                        _struct.pack_into("<" + size, want, at, v)
+                    return want
+                # first write and read
+                before = bytes(sg.fields["current_data"])
+                call(me, "set", dev, values[0])
+                if sg.fields["current_data"] != expect(None, values[0],
+                                                       before):
+                    bad["value"].append(f"{tag}: first write of "
+                                        f"{values[0]!r} gives "
+                                        f"{bytes(sg.fields['current_data'])[at-1:at+9].hex()}")
+                r = call(me, "get", dev)
+                if r != values[0] or type(r) is not type(values[0]):
+                    bad["value"].append(f"{tag}: reads back {r!r}")
+                # second write through whatever was cached
+                before = bytes(sg.fields["current_data"])
+                call(me, "set", dev, values[1])
+                if sg.fields["current_data"] != expect(None, values[1],
+                                                       before):
+                    bad["value"].append(f"{tag}: second write of "
+                                        f"{values[1]!r}")
+                # the group is restarted: a new frame buffer
+                old = sg.fields["current_data"]
+                sg.fields["current_data"] = bytearray(b"\xaa" * 64) \
+                    if not isinstance(size, int) else bytearray(64)
+                before = bytes(sg.fields["current_data"])
+                old_before = bytes(old)
+                call(me, "set", dev, values[0])
+                if sg.fields["current_data"] != expect(None, values[0],
+                                                       before) or \
+                        bytes(old) != old_before:
+                    bad["stale"].append(f"{tag}: a write after the restart "
+                                        f"does not reach the new frame")
+                r = call(me, "get", dev)
+                if r != values[0]:
+                    bad["stale"].append(f"{tag}: a read after the restart "
+                                        f"gives {r!r}")
+                # another device (another group, another layout) through
+                # the same PacketVar: refused, or served from its own frame
+                sg2 = group(base + 7)
+                dev2 = Obj(None, {"sync_group": sg2})
+                before2 = bytes(sg2.fields["current_data"])
+                mine = bytes(sg.fields["current_data"])
+                try:
+                    call(me, "set", dev2, values[1])
+                    at2 = at + 7
+                    want2 = bytearray(before2)
+                    if isinstance(size, int):
+                        if values[1]:
+                            want2[at2] |= 1 << size
+                        else:
+                            want2[at2] &= ~(1 << size) & 0xff
+                    else:
+                        _struct.pack_into("<" + size, want2, at2, values[1])
+                    if sg2.fields["current_data"] != want2 or bytes(
+                            sg.fields["current_data"]) != mine:
+                        bad["device"].append(
+                            f"{tag}: a second device is served with the "
+                            f"first device's frame or offset")
+                except Raised as e:
+                    if not e.what.startswith("AssertionError"):
+                        raise
+            except (Unknown, Raised) as e:
+                raise AnalysisError(f"R19.4: PacketVar accessors cannot be "
+                                    f"evaluated ({tag}): {e}")
+    chk.floor("R19.4", "accessor scenarios", rows, 16)
+    chk.ob("R19.4", pv.qualname + ".set", "slow-path accessors transfer the "
+           "declared bytes / bit at pdo_assign[terminal][sm] + position",
+           not bad["value"], pv.methods["set"], "; ".join(bad["value"][:2])
+           or f"{rows} scenarios: first access and the cached accessor, "
+           f"bytes, bits and strings")
+    chk.ob("R19.4", pv.qualname + ".set", "the accessors use the sync "
+           "group's current frame on every call", not bad["stale"],
+           pv.methods["set"], "; ".join(bad["stale"][:2]) + ": a frame "
+           "captured when the accessor was built goes stale when the group "
+           "is restarted (start() makes a new current_data)"
+           if bad["stale"] else "also after a restart of the group")
+    chk.ob("R19.4", pv.qualname + ".get", "a cached accessor is specific to "
+           "its device", not bad["device"], pv.methods["get"],
+           "; ".join(bad["device"][:2]) or "another device is refused (or "
+           "served from its own group)")
     tv = repo.cls(C + "TerminalVar")
     why = terminalvar_delegation(repo)
     chk.ob("R19.4", tv.qualname, "device variables delegate to the linked "
